@@ -1245,6 +1245,427 @@ def part_objects(ctx, res, EF, r, n=None):
     return lines, checks
 
 
+# ------------------------------------------------------------------ part F: history purity of ONE object
+# One StrainEnergy object receives a random sequence of calls: every public setter in every input form, the
+# description-level settings (quadrature, 3x3 inverse routine), the aspect-ratio search settings, mixed with
+# observations (compute on one / several radii triples, the five energy variants of the ellipsoidal description,
+# the two equilibrium aspect-ratio searches) at repeated and varying aspect ratios.  ORACLE (fresh-object
+# equivalence): every observation equals the observation on a FRESHLY CONSTRUCTED object that is given only the
+# settings in force at that moment (last successful call of every kind, canonical order).  The settings in force are
+# tracked by a small reference (`RefSettings`) that never reads the object.
+H_SHAPE_ARGS = ['constant', 'SPHERE', 'Cube', 'ellipsoid', 'plate', 'NEEDLE', 'Constant', 'sphere', 'CUBE', 'Ellipsoid']
+H_SHAPE_CODE = {'CONSTANT': 0, 'SPHERE': 1, 'CUBE': 2, 'ELLIPSOID': 3, 'PLATE': 3, 'NEEDLE': 3}
+H_DESC_CLS = ['ConstantEnergyDescription', 'SphericalEnergyDescription', 'CuboidalEnergyDescription', 'EllipsoidalEnergyDescription']
+_VOIGT = {(0, 0): 0, (1, 1): 1, (2, 2): 2, (1, 2): 3, (2, 1): 3, (0, 2): 4, (2, 0): 4, (0, 1): 5, (1, 0): 5}
+
+
+def own_2to4(c6):
+    """6x6 -> 3x3x3x3 written out here (independent of the code's convert2To4rankTensor)"""
+    c6 = np.asarray(c6, dtype=float); out = np.zeros((3, 3, 3, 3))
+    for (i, j), I in _VOIGT.items():
+        for (k, l), J in _VOIGT.items():
+            out[i, j, k, l] = c6[I, J]
+    return out
+
+
+def own_4to2(c4):
+    pairs = [(0, 0), (1, 1), (2, 2), (1, 2), (0, 2), (0, 1)]
+    return np.array([[c4[a + b] for b in pairs] for a in pairs], dtype=float)
+
+
+def hop_kind(h):
+    """short name of a history call (for histograms, keys and the replay text)"""
+    if h[0] == 'set':
+        return OPN[h[1][0]] + (':%d' % h[1][1] if h[1][0] == 0 else '')
+    if h[0] == 'prop':
+        return 'unrotated_c%s_4th=(%s)' % ('Matrix' if h[1] == 'matrix' else 'Prec', 'x'.join(map(str, np.shape(h[2]))))
+    if h[0] == 'shape':
+        return 'setShape(%r)' % (h[1],) if h[2] == 'str' else 'setShape(%s())' % H_DESC_CLS[H_SHAPE_CODE[h[1].upper()]]
+    if h[0] == 'quad':
+        return 'description.setLebedevIntegration(%r)' % h[2] if h[1] == 'lebedev' else 'description.setIntegrationIntervals(%d, %d, %r)' % tuple(h[2:5])
+    if h[0] == 'inverse':
+        return 'description.setOhmInverseFunction(%r)' % h[1]
+    if h[0] == 'compute':
+        return 'compute(%s)' % ('r' if np.ndim(h[1]) == 1 else '%d radii' % len(h[1]))
+    if h[0] == 'variants':
+        return 'description.strainEnergy{Ellipsoid,Ellipsoid2ndRank,Bohm,Bohm2ndRank,EllipsoidWithStress}(r)'
+    if h[0] == 'eqAR':
+        return 'eqAR_by%s(%s)' % ('Search' if h[1] == 'search' else 'GR', h[4])
+    if h[0] == 'arRes':
+        return 'setAspectRatioResolution'
+    if h[0] == 'ifmethod':
+        return 'setInterfacialEnergyMethod(%r)' % h[1]
+    return h[0]
+
+
+def hop_json(h):
+    """replayable JSON form of one history call (arrays in full)"""
+    def j(x):
+        if isinstance(x, np.ndarray):
+            return {'array': x.tolist()}
+        if isinstance(x, (tuple, list)):
+            return [j(v) for v in x]
+        if isinstance(x, (np.floating, np.integer)):
+            return x.item()
+        return x
+    return j(list(h))
+
+
+def hop_from_json(x):
+    def u(v):
+        if isinstance(v, dict) and 'array' in v:
+            return np.array(v['array'], dtype=float)
+        if isinstance(v, list):
+            return tuple(u(w) for w in v)
+        return v
+    h = u(x)
+    if h[0] in ('set',):
+        op = h[1]
+        if op[0] in (5, 9):
+            op = (op[0], list(op[1]))
+        return ('set', op)
+    return h
+
+
+def is_obs(h):
+    return h[0] in ('compute', 'variants', 'eqAR')
+
+
+class RefSettings:
+    """the settings in force, tracked from the calls alone (never reads the object): last successful call of each
+    kind, the description kind as update()/setShape/setConstantElasticEnergy define it, and the description-level
+    settings, which live in the description OBJECT and therefore start afresh whenever a new one is created"""
+    def __init__(self, shape):
+        self.desc = shape
+        self.constE = self.rot = self.rotP = self.stress = self.matrix = self.prec = self.eig = None
+        self.quad = self.inverse = self.arRes = self.ifmethod = None
+        self.matrix_set = False           # the matrix tensor in force has a non-zero entry
+
+    def _new_desc(self, d):
+        self.desc = d; self.quad = self.inverse = None
+
+    def _update(self):
+        if self.matrix_set:
+            if self.desc == 0:
+                self._new_desc(1)
+        else:
+            self._new_desc(0)
+
+    def applicable(self, h):
+        """description-level calls exist on the ellipsoidal description only"""
+        return self.desc == 3 if h[0] in ('quad', 'inverse', 'variants') else True
+
+    def defined(self):
+        """compute() is defined: a Khachaturyan / Eshelby description needs a matrix stiffness"""
+        return self.desc == 0 or self.matrix_set
+
+    def record(self, h):
+        k = h[0]
+        if k == 'set':
+            c = h[1][0]
+            if c == 0:
+                self._new_desc(h[1][1])
+            elif c == 1:
+                self.constE = h; self._new_desc(0)
+            elif c in (2, 3, 4, 5):
+                self.matrix = h
+                self.matrix_set = bool(np.any(h[1][1])) if c in (2, 3) else bool(any(h[1][1:])) if c == 4 else True
+                self._update()
+            else:
+                setattr(self, {6: 'prec', 7: 'prec', 8: 'prec', 9: 'prec', 10: 'rot', 11: 'rotP', 12: 'eig', 13: 'eig', 14: 'eig',
+                               15: 'stress', 16: 'stress', 17: 'stress'}[c], h)
+                if c not in (12, 13, 14) and self.matrix_set:
+                    self._update()
+        elif k == 'prop':
+            if h[1] == 'matrix':
+                self.matrix = h; self.matrix_set = bool(np.any(h[2])); self._update()
+            else:
+                self.prec = h
+                if self.matrix_set:
+                    self._update()
+        elif k == 'shape':
+            self._new_desc(H_SHAPE_CODE[h[1].upper()])
+        elif k in ('quad', 'inverse', 'arRes', 'ifmethod'):
+            setattr(self, k, h)
+
+    def calls(self):
+        """the canonical configuration of a fresh object: one call per kind"""
+        out = [h for h in (self.constE, self.rot, self.rotP, self.stress, self.matrix, self.prec, self.eig) if h is not None]
+        return out, [h for h in (self.quad, self.inverse, self.arRes, self.ifmethod) if h is not None]
+
+    def version(self):
+        return tuple(id(x) for x in (self.constE, self.rot, self.rotP, self.stress, self.matrix, self.prec, self.eig, self.quad, self.inverse,
+                                     self.arRes, self.ifmethod)) + (self.desc,)
+
+
+def _shape_factor(kind):
+    from kawin.precipitation import ShapeFactor
+    sf = ShapeFactor()
+    sf.setNeedleShape() if kind == 'needle' else sf.setPlateShape()
+    return sf
+
+
+def hist_call(EF, se, h):
+    """one call on the real object; observations return a flat float array, setters return None"""
+    k = h[0]
+    with np.errstate(all='ignore'):
+        if k == 'set':
+            return apply_flag(se, h[1])
+        if k == 'prop':
+            setattr(se, 'unrotated_cMatrix_4th' if h[1] == 'matrix' else 'unrotated_cPrec_4th', np.array(h[2]))
+        elif k == 'shape':
+            se.setShape(h[1] if h[2] == 'str' else getattr(EF, H_DESC_CLS[H_SHAPE_CODE[h[1].upper()]])())
+        elif k == 'quad':
+            se.description.setLebedevIntegration(h[2]) if h[1] == 'lebedev' else se.description.setIntegrationIntervals(h[2], h[3], h[4])
+        elif k == 'inverse':
+            se.description.setOhmInverseFunction(h[1])
+        elif k == 'arRes':
+            se.setAspectRatioResolution(h[1], h[2])
+        elif k == 'ifmethod':
+            se.setInterfacialEnergyMethod(h[1])
+        elif k == 'clearCache':
+            se.clearCache()
+        elif k == 'compute':
+            return np.atleast_1d(np.asarray(se.compute(np.array(h[1])), dtype=float)).ravel()
+        elif k == 'variants':
+            d = se.description; rad = np.array(h[1])
+            return np.array([float(f(rad)) for f in (d.strainEnergyEllipsoid, d.strainEnergyEllipsoid2ndRank, d.strainEnergyBohm, d.strainEnergyBohm2ndRank,
+                                                    d.strainEnergyEllipsoidWithStress)])
+        elif k == 'eqAR':
+            f = se.eqAR_bySearch if h[1] == 'search' else se.eqAR_byGR
+            R = np.array(h[2]) if np.ndim(h[2]) else float(h[2])
+            return np.atleast_1d(np.asarray(f(R, h[3], _shape_factor(h[4])), dtype=float)).ravel()
+        else:
+            raise AssertionError('unknown history call %r' % (k,))
+    return 'T'
+
+
+def fresh_object(EF, ref):
+    """a newly constructed object given only the settings in force"""
+    se = EF.StrainEnergy(SHAPES[ref.desc])
+    setters, rest = ref.calls()
+    for h in setters:
+        hist_call(EF, se, h)
+    if DESC_CODE[type(se.description).__name__] != ref.desc:
+        se.setShape(SHAPES[ref.desc])
+    for h in rest:
+        hist_call(EF, se, h)
+    return se
+
+
+def obs_equal(a, b, exact=False):
+    a = np.asarray(a, dtype=float); b = np.asarray(b, dtype=float)
+    if a.shape != b.shape:
+        return False
+    if exact:
+        return bool(np.array_equal(a, b, equal_nan=True))
+    return all(close(x, y, 1e-9) for x, y in zip(a, b))
+
+
+def run_history(EF, shape, hops, only=None):
+    """the calls on ONE object; returns (failures, stats).  failures: list of dict(key, index, what, observed, required);
+    `only` restricts the fresh-object comparison to one failure key (shrinking)."""
+    se = EF.StrainEnergy(SHAPES[shape])
+    ref = RefSettings(shape)
+    fails, stats = [], dict(obs=0, undefined=0, skipped=0, fresh=0)
+    memo = {}
+    for i, h in enumerate(hops):
+        if not ref.applicable(h):
+            stats['skipped'] += 1
+            continue
+        if is_obs(h):
+            if not ref.defined():
+                stats['undefined'] += 1
+                continue
+            kind = 'compute' if h[0] == 'compute' else 'variants' if h[0] == 'variants' else 'eqAR_by' + ('Search' if h[1] == 'search' else 'GR')
+            key = 'history:%s:%s' % (kind, SHAPES[ref.desc])
+            if only is not None and not only.startswith(key):
+                hist_call(EF, se, h)             # still part of the history
+                continue
+            got = hist_call(EF, se, h)
+            stats['obs'] += 1
+            mk = (ref.version(), h[0], np.asarray(h[1], dtype=float).tobytes()) if h[0] != 'eqAR' else None
+            if mk is not None and mk in memo:
+                want = memo[mk]
+            else:
+                stats['fresh'] += 1
+                want = hist_call(EF, fresh_object(EF, ref), h)
+                if mk is not None:
+                    memo[mk] = want
+            if not obs_equal(got, want, exact=(h[0] == 'eqAR')):
+                if h[0] == 'eqAR' and h[1] == 'search':
+                    # is it exactly the aspect-ratio table of the object that is out of date?  the same history with
+                    # clearCache() just before this call
+                    se2 = EF.StrainEnergy(SHAPES[shape]); ref2 = RefSettings(shape)
+                    for h2 in hops[:i]:
+                        if ref2.applicable(h2) and not (is_obs(h2) and not ref2.defined()):
+                            f2 = hist_call(EF, se2, h2)
+                            if not is_obs(h2) and f2 != 'F':
+                                ref2.record(h2)
+                    se2.clearCache()
+                    if obs_equal(hist_call(EF, se2, h), want, exact=True):
+                        key = 'history:eqAR_bySearch:stale-aspect-ratio-table'
+                fails.append(dict(key=key, index=i, what='%s on the used object differs from a freshly constructed object with the same final settings' % hop_kind(h),
+                                  observed=np.asarray(got).tolist(), required=np.asarray(want).tolist()))
+            continue
+        flag = hist_call(EF, se, h)
+        if flag != 'F':
+            ref.record(h)
+        dreal = DESC_CODE[type(se.description).__name__]
+        if dreal != ref.desc:
+            fails.append(dict(key='history:description', index=i, what='after %s the description is %s, the calls so far define %s' % (hop_kind(h), SHAPES[dreal], SHAPES[ref.desc]),
+                              observed=SHAPES[dreal], required=SHAPES[ref.desc]))
+            break
+    return fails, stats
+
+
+def shrink_history(EF, shape, hops, key, budget=160):
+    """delta debugging: remove chunks, then single calls, while the same failure key persists"""
+    def fails(hs):
+        try:
+            f, _ = run_history(EF, shape, hs, only=key)
+        except Exception:
+            return False
+        return any(x['key'] == key for x in f)
+    trials = 0
+    n = 2
+    while len(hops) >= 2 and trials < budget:
+        chunk = max(1, len(hops) // n)
+        reduced = False
+        for s in range(0, len(hops), chunk):
+            cand = hops[:s] + hops[s + chunk:]
+            trials += 1
+            if cand and fails(cand):
+                hops = cand; n = max(n - 1, 2); reduced = True
+                break
+            if trials >= budget:
+                break
+        if not reduced:
+            if chunk == 1:
+                break
+            n = min(len(hops), n * 2)
+    return hops
+
+
+def describe_history(shape, hops):
+    def arg(h):
+        if h[0] == 'set':
+            return describe_family([0], [(0, h[1])])['calls'][0]['arg']
+        return [np.asarray(x).tolist() if isinstance(x, np.ndarray) else x for x in h[1:]]
+    return dict(object='StrainEnergy(%r)' % SHAPES[shape], calls=[dict(call=hop_kind(h), arg=arg(h)) for h in hops],
+                replay_shape=shape, replay_ops=[hop_json(h) for h in hops])
+
+
+def gen_history(r, EF, nmax):
+    shape = int(r.choice([3, 3, 3, 3, 1, 2, 0]))
+    a0 = 10 ** r.uniform(-9.5, -8)
+    ar = float(r.uniform(1.3, 5))
+    pool = [np.array([1.0, 1.0, 1.0]), np.array([1.0, 1.0, ar]), np.array([1.0, 1.0, 1 / ar])]
+    if r.random() < 0.5:
+        pool.append(r.uniform(0.4, 2.5, 3))
+    sizes = [a0, 2.5 * a0]
+    peq = 0.08 if r.random() < 0.15 else 0.0        # some histories ask for the equilibrium aspect ratio repeatedly
+
+    def radii():
+        p = pool[int(r.integers(0, len(pool)))]
+        s = sizes[int(r.integers(0, 2))] if r.random() < 0.7 else a0 * r.uniform(0.3, 4)
+        return p * s
+
+    def observation():
+        u = r.random()
+        if u < 0.62:
+            return ('compute', radii())
+        if u < 0.74:
+            return ('compute', np.stack([radii() for _ in range(int(r.integers(2, 4)))]))
+        if u < 0.92 - 3 * peq:
+            return ('variants', radii())
+        if u < 0.97 - peq:
+            R = 10 ** r.uniform(-9.3, -7.5, int(r.integers(1, 3)))
+            return ('eqAR', 'search', R if r.random() < 0.7 else float(R[0]), float(r.uniform(0.1, 0.6)), str(r.choice(['needle', 'plate'])))
+        return ('eqAR', 'GR', float(10 ** r.uniform(-9.3, -7.5)), float(r.uniform(0.1, 0.6)), str(r.choice(['needle', 'plate'])))
+
+    def setter():
+        u = r.random()
+        if u < 0.70:
+            for _ in range(50):
+                op = gen_op(r, EF)
+                # the description is replaced less often than in part D (an Eshelby description has to live through several calls);
+                # an all-zero matrix tensor (= "not set") stays in, but rarely
+                if op[0] in (0, 1) and r.random() < 0.6:
+                    continue
+                if op[0] in (2, 6) and not np.any(op[1]) and r.random() < 0.7:
+                    continue
+                return ('set', op)
+        if u < 0.76:
+            c6 = EF.elasticConstantToC(*rand_cubic(r))
+            return ('prop', str(r.choice(['matrix', 'prec'])), c6 if r.random() < 0.5 else own_2to4(c6))
+        if u < 0.81:
+            return ('shape', str(r.choice(H_SHAPE_ARGS)), str(r.choice(['str', 'instance'])))
+        if u < 0.89:
+            return ('quad', 'lebedev', str(r.choice(['low', 'low', 'mid', 'high'])))
+        if u < 0.92:
+            return ('quad', 'intervals', int(r.integers(4, 12)), int(r.integers(4, 12)), bool(r.random() < 0.7))
+        if u < 0.96:
+            return ('inverse', str(r.choice(['quick', 'numpy'])))
+        if u < 0.975:
+            return ('arRes', float(r.choice([0.1, 0.2, 0.25])), float(r.choice([1, 2])))
+        if u < 0.985:
+            return ('ifmethod', str(r.choice(['thermo', 'eqradius'])))
+        return ('clearCache',)
+
+    n = int(r.integers(3, nmax))
+    hops = []
+    if r.random() < 0.85:
+        hops += [('arRes', 0.25, 1.0), ('set', gen_op_of(r, EF, int(r.choice([2, 3, 4, 5])))), ('set', gen_op_of(r, EF, int(r.choice([12, 13, 14]))))]
+        if shape == 3 and r.random() < 0.7:
+            hops.append(('quad', 'lebedev', 'low'))
+        hops = [hops[i] for i in r.permutation(len(hops))]
+    neq = 0
+    while len(hops) < n:
+        h = observation() if r.random() < 0.4 else setter()
+        if h[0] == 'eqAR':
+            neq += 1
+            if neq > (4 if peq else 2):
+                continue
+        hops.append(h)
+    if not is_obs(hops[-1]):
+        hops.append(('compute', radii()))
+    return shape, hops
+
+
+def part_history(ctx, res, EF, r, n=None):
+    shrunk = set()
+    lines, checks = [], []
+
+    def _case_history(k):
+        shape, hops = gen_history(r, EF, ctx.n(22, 60))
+        _case_history.info = dict(object=SHAPES[shape], calls=[hop_kind(h) for h in hops])
+        fails, st = run_history(EF, shape, hops)
+        res.case(('history', k, shape, len(hops)), st['obs'] >= 2); res.traces += 1
+        res.count('history-calls', len(hops)); res.count('history-observations', st['obs']); res.count('history-fresh-objects', st['fresh'])
+        res.count('history-compute-undefined-without-stiffness', st['undefined']); res.count('history-initial-' + SHAPES[shape])
+        for h in hops:
+            res.count('hist-op:' + hop_kind(h).split('(')[0])
+        if k == 0:
+            res.sample(dict(object=SHAPES[shape], calls=[hop_kind(h) for h in hops]))
+        seen = set()
+        for f in fails:
+            if f['key'] in seen:
+                continue
+            seen.add(f['key'])
+            hs = hops[:f['index'] + 1]
+            f2 = f
+            if f['key'] not in shrunk:
+                shrunk.add(f['key'])
+                hs = shrink_history(EF, shape, hs, f['key'])
+                again = [x for x in run_history(EF, shape, hs, only=f['key'])[0] if x['key'] == f['key']]
+                f2 = again[0] if again else f
+            res.violate(f['key'], f2['what'], dict(describe_history(shape, hs), shrunk_from=f['index'] + 1, case=k), f2['observed'], f2['required'])
+    for k in range(n or ctx.n(260, 3000)):
+        attempt(res, 'history', k, _case_history)
+    return lines, checks
+
+
 # ------------------------------------------------------------------ entry points
 def corr(ctx, oracle_only=False, scale=1):
     res = Result()
